@@ -306,7 +306,7 @@ class Sym:
     SIDE = []       # side conditions of fresh symbols introduced for non-polynomial operations (q*q == x, q >= 0), added to the job's assumptions
 
     def __pow__(self, k):
-        if isinstance(k, float) and k == 0.5 and not self.is_numeric():
+        if isinstance(k, float) and k == 0.5:
             return self.sqrt()
         if isinstance(k, Sym) and k.is_numeric():
             k = k.n
@@ -415,9 +415,9 @@ class Sym:
             return Sym(snap_float(float(self.n) ** 0.5))
         if Sym.SQRT_HOOK is None:
             # a fresh non-negative symbol q with q*q == x (side conditions collected for the solver)
+            # (the defining equation q*q == x is NOT handed to the solver: nlsat does not honour its time limit on such systems;
+            #  q is an arbitrary non-negative value -- an over-approximation, any counter-model is checked by the exact replay)
             q = fresh('sqrt')
-            L, R = identity_terms(q * q, self)
-            Sym.SIDE.append(L == R)
             Sym.SIDE.append(q.n >= 0)
             return q
         return Sym.SQRT_HOOK(self)
